@@ -162,6 +162,9 @@ func (s *fstate) killX(root types.Object, path []string, viaCall bool) *fstate {
 			continue // the variable still holds the caller's value; only a reassignment ends that
 		}
 		hit := mentions(f, root, path)
+		if hit && (f.S == "errAs" || f.S == "notErrAs") && (len(path) > 0 || viaCall) && len(f.A) == 2 && f.A[1].K == "var" && f.A[1].Obj == root && !mentions(f.A[0], root, path) {
+			hit = false // whether errors.As matched (and bound the target variable) is not changed by a later store to a field of the target
+		}
 		if hit && (f.S == "def" || f.S == "defx") && (len(path) > 0 || viaCall) && len(f.A) >= 2 && f.A[0].K == "var" && f.A[0].Obj == root {
 			// a field store through v does not change where the pointer v came from
 			hit = false
